@@ -480,8 +480,18 @@ fn extract_case(env: &ExtractEnv, t: &mut Trace, case: u64, scn: &Value, rng: &m
     for (i, m) in scn["members"].as_array().unwrap().iter().enumerate() {
         let comps: Vec<String> = serde_json::from_value(m["name"].clone()).unwrap();
         let dir = m["dir"].as_bool().unwrap();
-        // empty members are part of the domain: every 4th file member is empty
-        let len = if dir || (case + i as u64) % 4 == 3 { 0 } else { rng.range(1, 40) as usize };
+        // empty members are part of the domain: every 4th file member is empty; members of an archive with aliasing names
+        // (a.dlt and ./a.dlt denote one path) get clearly different lengths, longer-first and shorter-first by case parity
+        let aliased = scn["aliased"].as_bool().unwrap_or(false);
+        let len = if dir {
+            0
+        } else if aliased {
+            if case % 2 == 0 { 40 - 14 * i.min(2) } else { 8 + 14 * i.min(2) }
+        } else if (case + i as u64) % 4 == 3 {
+            0
+        } else {
+            rng.range(1, 40) as usize
+        };
         members.push(Member { comps, dir, pre: m["pre"].as_bool().unwrap(), content: rng.bytes(len) });
     }
     let names: Vec<String> = members.iter().map(|m| concrete_name(&m.comps, m.dir, &abs)).collect();
@@ -507,7 +517,20 @@ fn extract_case(env: &ExtractEnv, t: &mut Trace, case: u64, scn: &Value, rng: &m
     let multi = case % 5 == 4 && cls != "nofilter";
     let zip_path = archdir.join(format!("r{}c{}.zip", env.run_id, case));
     let mode = if cls == "nofilter" { "to_dir" } else { "archives" };
-    let hdr = json!({"members":hdr_members,"globs":scn["globs"],"mode":mode,"names":names,"multi_volume":multi});
+    // versions of the archive: a "nofilter" history extracts version j (same names, SHORTER contents) into the same directory;
+    // all other histories use the one archive for every request
+    let mut versions: Vec<Vec<Vec<u8>>> = vec![members.iter().map(|m| m.content.clone()).collect()];
+    for j in 1..globs.len() {
+        let prev = versions[j - 1].clone();
+        versions.push(if mode == "to_dir" { prev.iter().map(|c| rng.bytes(c.len() / 2)).collect() } else { prev });
+    }
+    let vers: Vec<Vec<Value>> = versions.iter().map(|v| v.iter().map(|c| json!({"len": c.len(), "hash": hash31(c)})).collect()).collect();
+    let junk = scn["junk"].as_bool().unwrap_or(false);
+    if junk { bump("target_dir_prefilled_with_longer_files"); }
+    if scn["aliased"].as_bool().unwrap_or(false) { bump("archive_with_aliasing_names"); }
+    if mode == "to_dir" && globs.len() > 1 { bump("second_archive_version_into_same_dir"); }
+    let hdr = json!({"members":hdr_members,"globs":scn["globs"],"mode":mode,"names":names,"multi_volume":multi,"vers":vers,"junk":junk,
+        "aliased":scn["aliased"]});
     if let Err(e) = write_zip(&zip_path, &members, &names, case) {
         // the zip writer refused the archive: nothing of adlt was observed, so no case is recorded (only counted)
         bump("zip_writer_refused");
@@ -560,7 +583,32 @@ fn extract_case(env: &ExtractEnv, t: &mut Trace, case: u64, scn: &Value, rng: &m
     // one temp dir list for the whole history: extract_archives keeps one temp dir per archive and reuses it
     let mut temp_dirs: Vec<(String, tempfile::TempDir)> = Vec::new();
     let mut own_td: Option<tempfile::TempDir> = None;
+    if mode == "to_dir" {
+        // one target directory for the whole history; optionally every target path holds a LONGER file already
+        let td = tempfile::TempDir::new().expect("tempdir");
+        if junk {
+            for tg in scn["targets"].as_array().unwrap() {
+                let comps: Vec<String> = serde_json::from_value(tg.clone()).unwrap();
+                if comps.is_empty() {
+                    continue;
+                }
+                let p = comps.iter().fold(td.path().to_path_buf(), |a, c| a.join(c));
+                std::fs::create_dir_all(p.parent().unwrap()).unwrap();
+                std::fs::write(&p, rng.bytes(64)).unwrap();
+            }
+        }
+        own_td = Some(td);
+    }
+    let mut version_paths: Vec<PathBuf> = Vec::new();
     for (ri, (gcls, gk)) in globs.iter().enumerate() {
+        if mode == "to_dir" && ri > 0 {
+            // the next version of the archive (same member names, other contents)
+            let vm: Vec<Member> = members.iter().zip(versions[ri].iter()).map(|(m, c)| Member { comps: m.comps.clone(), dir: m.dir, pre: m.pre, content: c.clone() }).collect();
+            let vp = archdir.join(format!("r{}c{}v{}.zip", env.run_id, case, ri + 1));
+            write_zip(&vp, &vm, &names, case).expect("write next archive version");
+            open_name = vp.clone();
+            version_paths.push(vp);
+        }
         let pattern = match gcls.as_str() {
             "all" => "**/*".to_string(),
             "ext" => "*.dlt".to_string(),
@@ -579,14 +627,12 @@ fn extract_case(env: &ExtractEnv, t: &mut Trace, case: u64, scn: &Value, rng: &m
                 let reported = extract_archives(arg, &mut temp_dirs, &env.cancel, &env.log);
                 (reported.into_iter().map(PathBuf::from).collect::<Vec<_>>(), None)
             } else {
-                let td = tempfile::TempDir::new().expect("tempdir");
+                let tdp = own_td.as_ref().unwrap().path().to_path_buf();
                 let chain = SeekableChain::new(vec![std::fs::File::open(&open_name).expect("open zip")]);
-                let r = match extract_to_dir(chain, td.path(), None, &HashMap::new(), &env.cancel) {
-                    Ok(v) => (v.into_iter().map(|p| td.path().join(p)).collect::<Vec<_>>(), None),
+                match extract_to_dir(chain, &tdp, None, &HashMap::new(), &env.cancel) {
+                    Ok(v) => (v.into_iter().map(|p| tdp.join(p)).collect::<Vec<_>>(), None),
                     Err(e) => (vec![], Some(e.to_string())),
-                };
-                own_td = Some(td);
-                r
+                }
             }
         }));
         match res {
@@ -650,6 +696,9 @@ fn extract_case(env: &ExtractEnv, t: &mut Trace, case: u64, scn: &Value, rng: &m
     }
     drop(temp_dirs);
     drop(own_td);
+    for p in version_paths {
+        let _ = std::fs::remove_file(p);
+    }
     let _ = std::fs::remove_file(&zip_path);
     for p in vol_paths {
         let _ = std::fs::remove_file(p);
